@@ -119,7 +119,7 @@ def setop(sym, op, NA, NB, ncols, dom, bs=None):
 BOUNDS = {
     'quick': 'a, b: row counts symbolic in [0,2] with 2 columns / [0,3] with 1 column; cells None|int in [0,2) or '
              'int in [0,3) or None|int|{a,b}; strict symbolic; buffersize {None,1}',
-    'thorough': 'row counts [0,3]x[0,3] with 2 columns, [0,4]x[0,3] with 1 column',
+    'thorough': 'row counts up to 3x2 / 2x3 with 2 columns, 4x2 / 3x3 with 1 column (sized so that the trees exhaust within budget)',
 }
 OUTSIDE = 'rows whose length differs from the header (statement: rectangular); more rows/columns than the bound; presorted=True (C11)'
 STUBS = ['PickleStub (buffersize=1 jobs)', 'private temp dir per path']
@@ -136,8 +136,8 @@ def jobs(tier):
     for op in OPS:
         shapes = [(2, 2, 2, 'Id2+Id2'), (2, 1, 2, 'Od2+Id2'), (1, 2, 2, 'Id2+Od2'), (3, 2, 1, 'Id3'), (2, 3, 1, 'Od2'),
                   (2, 2, 1, 'Md2')] if q else \
-            [(2, 2, 2, 'Od2'), (3, 2, 2, 'Id2+Od2'), (2, 3, 2, 'Od2+Id2'), (3, 3, 2, 'Id2+Id2'), (4, 3, 1, 'Id3'),
-             (3, 4, 1, 'Od2'), (3, 3, 1, 'Md2')]
+            [(2, 2, 2, 'Id2+Od2'), (3, 2, 2, 'Id2+Id2'), (2, 3, 2, 'Id2+Id2'), (4, 2, 1, 'Id3'), (3, 3, 1, 'Od2'),
+             (3, 3, 1, 'Md2')]
         for (na, nb, nc, dom) in shapes:
             if op.startswith('record') and nc == 1:
                 continue
